@@ -970,3 +970,65 @@ def replay_c11_bytes(args):
         if normalize(g.pubkey_to_G1(pk)) != normalize(P1) or normalize(g.signature_to_G2(sig)) != normalize(P2):
             bad.append(("roundtrip", k))
     return (len(bad) > 0), "c11_bytes: %d failures %s" % (len(bad), bad[:2])
+
+
+# ---------------------------------------------------------------------------
+# BLS protocol replays (real pairings; each Verify costs ~1 s)
+
+def _suite(name):
+    from py_ecc import bls
+    return getattr(bls, name)
+
+
+_R = 52435875175126190479447740508185965837690552500527637822603658699938581184513
+
+
+def replay_bls_sign_verify(args):
+    S = _suite(args["suite"])
+    from eth_utils import ValidationError
+    bad = []
+    sks = []
+    if "sk" in args:
+        sks.append(int(args["sk"]))
+    sks += [1, 2, _R - 1, 0, _R, -1, _R + 1, 2 ** 255]
+    msg = bytes.fromhex(args["msg"]) if "msg" in args else b"\x12" * 3
+    for sk in sks:
+        valid = 1 <= sk < _R
+        try:
+            pk = S.SkToPk(sk)
+            sig = S.Sign(sk, msg)
+            if not valid:
+                bad.append(("accepted invalid sk", sk))
+                continue
+            if S.Verify(pk, msg, sig) is not True:
+                bad.append(("honest signature rejected", sk, msg.hex()))
+        except ValidationError:
+            if valid:
+                bad.append(("refused valid sk", sk))
+        except Exception as e:
+            bad.append((repr(e)[:80], sk))
+        if len(bad) > 2:
+            break
+    return (len(bad) > 0), "bls_sign_verify %s: %d failures %s" % (args["suite"], len(bad), str(bad[:2])[:300])
+
+
+def replay_bls_pop(args):
+    S = _suite("G2ProofOfPossession")
+    from eth_utils import ValidationError
+    bad = []
+    sks = ([int(args["sk"])] if "sk" in args else []) + [1, 3, _R - 1, 0, _R, -5]
+    for sk in sks:
+        valid = 1 <= sk < _R
+        try:
+            proof = S.PopProve(sk)
+            if not valid:
+                bad.append(("accepted invalid sk", sk))
+                continue
+            if S.PopVerify(S.SkToPk(sk), proof) is not True:
+                bad.append(("honest proof rejected", sk))
+        except ValidationError:
+            if valid:
+                bad.append(("refused valid sk", sk))
+        except Exception as e:
+            bad.append((repr(e)[:80], sk))
+    return (len(bad) > 0), "bls_pop: %d failures %s" % (len(bad), str(bad[:2])[:300])
